@@ -6,6 +6,7 @@ import Flipdot.Model.Frame
 import Flipdot.Model.Message
 import Flipdot.Model.SignType
 import Flipdot.Model.Page
+import Flipdot.Model.Display
 import Flipdot.Model.VSign
 import Flipdot.Model.Controller
 import Flipdot.Model.Compose
@@ -251,6 +252,11 @@ def pageOps (p : Page) (ops : List String) : String := Id.run do
       | .ok b => out := out.push (hex2 b)
       | .error _ => return String.intercalate " " (out.push "PANIC").toList
     | ["b"] => out := out.push (toHex p.bytes)
+    | ["d"] =>
+      match p.render with
+      | .ok bs => out := out.push (String.ofList (bs.map fun b =>
+          if b == 32 then '.' else if b == 10 then '/' else Char.ofNat b.toNat))
+      | .error _ => return String.intercalate " " (out.push "PANIC").toList
     | _ => return "bad-op"
   return String.intercalate " " (out.push s!"{p.w} {p.h} {toHex p.bytes}").toList
 
